@@ -366,6 +366,12 @@ func (s *Sim) Run() {
 	defer func() { dbft.VerifMapPerm = nil }()
 
 	s.setup()
+	s.loop()
+}
+
+// loop processes the event queue until the run is complete or capped.
+func (s *Sim) loop() {
+	sc := s.sc
 	for s.q.Len() > 0 && s.viol == nil && !s.stopped {
 		ev := heap.Pop(&s.q).(*Event)
 		if ev.At > sc.MaxTime {
